@@ -9,7 +9,7 @@ Trace == ndJsonDeserialize("trace.ndjson")
 Ev == Trace[l]
 
 Expected(e) ==
-  CASE e.a = "Open" -> IF holder = None THEN "ok" ELSE "lockfailed"
+  CASE e.a \in {"Open", "OpenRO"} -> IF holder = None THEN "ok" ELSE "lockfailed"
     [] e.a = "WaitCall" -> IF holder = None THEN "returned" ELSE "blocked"
     [] e.a = "Acq" -> "returned"
     [] e.a = "Close" -> "ok"
@@ -17,7 +17,7 @@ Expected(e) ==
     [] OTHER -> "?"
 
 Apply(e) ==
-  CASE e.a = "Open" -> Open(e.h)
+  CASE e.a \in {"Open", "OpenRO"} -> Open(e.h)
     [] e.a = "WaitCall" -> IF holder = None
                              THEN st' = [st EXCEPT ![e.h] = "open"] /\ holder' = e.h /\ ops' = ops + 1
                              ELSE OpenWaitCall(e.h)
